@@ -371,11 +371,15 @@ def run(tier):
     t0 = time.time()
     gen = gen_factory(tier)
     res = explore(PROP + "-" + tier, gen, check, chunk=200, deadline=t0 + (1500 if tier == "thorough" else 400))
+    # the same lattice against the gcc -O2 build (no sanitizer): what undefined behaviour turns into depends on the compiler
+    from ..core import tree
+    with tree("gcc"):
+        res.merge(explore(PROP + "-" + tier + "-gcc", gen, check, chunk=200, deadline=t0 + (2400 if tier == "thorough" else 600)))
     rule = ("product of the boundary lattice (integers: 0, +-1, 2^k, 2^k+-1, MIN/MAX neighbours, 10^k; shifts [-130,130]; "
             "doubles: +-0, subnormals, 2^53 and 2^63 neighbourhoods, DBL_MAX, inf, nan) over every arithmetic and bitwise operator, "
             "operands bound exactly through the API and offered as variables and as temporaries of the same value (4 forms per pair; the variables must be "
             "unchanged afterwards), results read back as typed values and compared with the reference model; "
             "a case is non-trivial when the driver returned a result for it (every case evaluates 2..13 operators)")
     return finish(PROP, tier, res, check, rule, t0,
-                  assumptions=["reference model: Python exact integers, Python/libm IEEE doubles", "clang 14 ASan+UBSan",
+                  assumptions=["reference model: Python exact integers, Python/libm IEEE doubles", "clang 14 ASan+UBSan build and gcc 12 -O2 build, both explored",
                                "operands outside the lattice are not covered"])
